@@ -1570,4 +1570,7 @@ pub fn run(r: &mut Run) {
         big.push(BigCase { writes: 60, checkpoint_after: 0, mode: Mode::Default });
     }
     r.enumerate("rotation_64mib", big, false, check_big);
+
+    // AsyncWalManager and AdaptiveFlusher (walx.rs)
+    crate::props::walx::run_c05(r);
 }
